@@ -72,21 +72,29 @@ def run_case(ctx, case, ir):
     return v_bad, p_bad
 
 
+def gen_preload(rng):
+    """constant membrane pre-stress: every component alone (also pure shear), pairs, all three; unset components are None or 0"""
+    z = lambda: rng.choice([None, 0.])
+    v = lambda: rng.choice([-1, 1]) * rng.uniform(20., 1e3)
+    pat = rng.choice(['x', 'y', 's', 's', 'xy', 'xs', 'ys', 'xys', 'xys'])
+    return (v() if 'x' in pat else z(), v() if 'y' in pat else z(), v() if 's' in pat else z())
+
+
 def gen(ctx, rng):
     case = pc.gen_panel_case(rng, max_mn=ctx.scale(3, 5))
     case['pad'] = rng.choice([0, 0, 3, 7])
     case['row0'] = rng.choice([0, case['pad']]) if case['pad'] else 0
     case['col0'] = case['row0']      # a panel occupies the same range of rows and columns
-    if rng.random() < 0.3:
-        case['Nxx_cte'], case['Nyy_cte'], case['Nxy_cte'] = rng.uniform(-1e3, 1e3), rng.choice([None, 50.]), rng.choice([None, -30.])
+    if rng.random() < 0.35:
+        case['Nxx_cte'], case['Nyy_cte'], case['Nxy_cte'] = gen_preload(rng)
     return case
 
 
-def additivity(ctx, rng):
+def additivity(ctx, rng, t=None):
     """sub-intervals that tile the width add up to the full-width matrix"""
     case = pc.gen_panel_case(rng, max_mn=3, y12=False)
-    if rng.random() < 0.5:          # ... also with a constant membrane pre-load on every strip
-        case['Nxx_cte'], case['Nyy_cte'], case['Nxy_cte'] = rng.uniform(-1e3, 1e3), rng.choice([None, 50.]), rng.choice([None, -30.])
+    if (rng.random() < 0.5) if t is None else (t % 2 == 0):          # ... also with a constant membrane pre-load on every strip
+        case['Nxx_cte'], case['Nyy_cte'], case['Nxy_cte'] = gen_preload(rng)
     b = case['b']
     cuts = sorted([0.] + [rng.uniform(0.05, 0.95) * b for _ in range(rng.randint(1, 3))] + [b])
     def mk(c):
@@ -106,7 +114,7 @@ def additivity(ctx, rng):
     return None, None
 
 
-def reuse_case(ctx, rng):
+def reuse_case(ctx, rng, t=None):
     """the stiffness matrix belongs to the laminate the panel has NOW: a Panel whose stack / ply data are edited (in place or by
     re-assignment) between two evaluations gives the matrix of a freshly defined panel with the edited data"""
     case = pc.gen_panel_case(rng, models=('Plate', 'CPanel'), max_mn=3, y12=False)
@@ -114,7 +122,8 @@ def reuse_case(ctx, rng):
         case['stack'] = list(case['stack']) + [30.]
     p = pc.make_panel(case)
     pc.quiet(p.calc_k0, silent=True)
-    edit = rng.choice(['stack item', 'stack reverse', 'plyt', 'laminaprop', 'stack item'])
+    EDITS = ['stack item', 'stack reverse', 'plyt', 'laminaprop', 'offset', 'geometry', 'flags']
+    edit = rng.choice(EDITS) if t is None else EDITS[t % len(EDITS)]         # every kind of edit on every run
     c2 = dict(case, stack=list(case['stack']))
     if edit == 'stack item':
         k = rng.randrange(len(c2['stack']))
@@ -129,6 +138,20 @@ def reuse_case(ctx, rng):
         c2['plyt'] = case['plyt'] * 1.5
         p.plyt = c2['plyt']
         p.plyts = []
+    elif edit == 'offset':
+        c2['offset'] = case['offset'] + rng.choice([-1., 1.]) * rng.uniform(0.3, 1.5) * case['plyt']
+        p.offset = c2['offset']
+    elif edit == 'geometry':
+        c2['a'], c2['b'] = case['a'] * 1.25, case['b'] * 0.8
+        p.a, p.b = c2['a'], c2['b']
+        if case['r']:
+            c2['r'] = case['r'] * 1.5
+            p.r = c2['r']
+    elif edit == 'flags':
+        c2['flags'] = dict(case['flags'])
+        for k_ in rng.sample(sorted(c2['flags']), 5):
+            c2['flags'][k_] = 1. - c2['flags'][k_] if c2['flags'][k_] in (0., 1.) else 0.
+            setattr(p, k_, c2['flags'][k_])
     else:
         lp = list(case['laminaprop'])
         lp[0] *= 0.7
@@ -170,14 +193,14 @@ def correspondence(ctx):
                           'oracle agrees with the running code on this panel', dict(case=case, tie='V fk0'),
                           found_input=False)
             return
-    for t in range(ctx.scale(4, 40)):
-        c, bad = additivity(ctx, rng)
+    for t in range(ctx.scale(6, 40)):
+        c, bad = additivity(ctx, rng, t)
         ctx.evaluations += 1
         if bad:
             ctx.violation('C02 fails on the implementation: ' + bad, dict(case=c, additivity=True))
             return
-    for t in range(ctx.scale(10, 60)):
-        c, bad = reuse_case(ctx, rng)
+    for t in range(ctx.scale(14, 70)):
+        c, bad = reuse_case(ctx, rng, t)
         ctx.evaluations += 1
         if bad:
             ctx.violation('C02 fails on the implementation: ' + bad, dict(case=c, reuse=True))
